@@ -379,6 +379,11 @@ class OpsMixin:
                 facts[key] = res
             self.str_tests.append(("contains", coll, item.value, res, self.cur_site))
             return res
+        if isinstance(coll, (Hole, Str, StrOp)) and isinstance(item, (Unknown, Hole, Str, StrOp)):
+            # a symbolic piece of text (e.g. the quote character `qm`) looked for in a symbolic text
+            res = self.decide(f"contains:{self.describe(coll)}:<{self.describe(item)}>")
+            self.str_tests.append(("contains", coll, f"<{self.describe(item)}>", res, self.cur_site))
+            return res
         if isinstance(coll, (SColl, Unknown, SVal)):
             return self.decide(f"in:{self.describe(item)}:{coll.desc}")
         raise AnalysisError(f"membership test in {coll!r} at {self.cur_site}")
